@@ -34,7 +34,8 @@ MODELLED_NOT_VERIFIED = [
     "lambdas, the 32+4-row decision tables of the two loops of _get_length_diffs, the re-encoding protocol, the namespace check, the "
     "delegating aliases) are regenerated from the source on every run (Gen/C04Kernels.lean) and proved equal to the model's (gen_* "
     "theorems); what stays hand-written: the iteration structure around those kernels (dict insertion order, later-edge-wins in "
-    "bipartition_edge_map, pop of shared keys), tied by comparing fp, fn, wRF, Euclid^2, the root bracket, the per-split dictionary and "
+    "bipartition_edge_map, pop of shared keys) - proved irrelevant for duplicate-free split lists (edgeMap_of_nodup, "
+    "dist_order_irrelevant, lengthDiffsK_spec), so only WHICH edge records enter the dictionaries rests on the comparison -, tied by comparing fp, fn, wRF, Euclid^2, the root bracket, the per-split dictionary and "
     "the missing-bipartition set per generated pair",
     "C04: math.sqrt is modelled by its exact fixed-point floor (Model/C04Root.lean rootFix; rootFix_bracket / euclid_bracket: the printed "
     "integer brackets the real root) and the metric theorems are stated on the real root (euclid_*); binary64 rounding is not modelled "
@@ -74,7 +75,14 @@ EXPLANATION = ("Theorems about the definitions the driver runs. Definitions: fp/
                "rf_zero_iff_unrooted_topology. Tie A (gen_rf, gen_fpfn, gen_missing, gen_wrf, gen_euclid, gen_entry, gen_pass2, "
                "gen_prepare, gen_namespace, gen_aliases): the kernels regenerated from treecompare.py / _tree.py on every run are the "
                "model's; a semantic edit of the source breaks one of them, a harmless rewrite (a - b for a.difference(b), x*x for pow(x,2), "
-               "nested ifs for `and`, a symmetric alias with its trees swapped) does not. Histories (Model/C04State.lean, with rooting-change events rootA / rootB: flag and drawing change, the encoding stored under the old flag stays; the driver's "
+               "nested ifs for `and`, a symmetric alias with its trees swapped) does not. Iteration structure: edgeMap_of_nodup (without duplicate splits later-edge-wins never fires: the dictionary is the keyed edge "
+               "list), dist_order_irrelevant (any permutation of a duplicate-free edge list gives the same wRF / Euclid^2 in both argument "
+               "positions, definedness included), fpfn_order_irrelevant; lengthDiffsK_spec covers the two passes (pop = the second pass "
+               "sees exactly the splits the first tree lacks). defined_of_no_missing_length: trees without a length-less non-seed edge are never refused, and a refusal exhibits a shared "
+               "split with such an edge (the clause the oracle judges refusals by). updated_call_on_current_encoding: the flagged unweighted call equals the "
+               "default one when the stored encodings are current; gen_prepare_weighted: the weighted functions follow the same "
+               "re-encoding protocol as the unweighted ones (why a flagged weighted call is replayed as F1 for its state effect). "
+               "Histories (Model/C04State.lean, with rooting-change events rootA / rootB: flag and drawing change, the encoding stored under the old flag stays; the driver's "
                "`hist` and `sdist` ops execute run / step / "
                "weightedCall / fpfnCall / missingCall on every generated history and the harness compares every answer): "
                "history_default_call_is_fresh, default_call_ignores_stored_encoding, updated_call_uses_stored_encoding, namespace_refusal "
@@ -564,7 +572,8 @@ def flush(ctx, pending):
                         elif name == "weighted_robinson_foulds_distance":
                             good = close(impl, float(Fraction(g)))
                         else:
-                            good = close(impl, math.sqrt(float(Fraction(g))))
+                            # the square, and the root itself: the library's float inside the model's fixed-point bracket
+                            good = close(impl, math.sqrt(float(Fraction(g)))) and len(f) == 3 and f[2] != "E" and root_in_bracket(impl, int(f[2]))
                     ok = ok and good
             if not ok:
                 ctx.disagree("hist", case, str(want), o)
